@@ -414,7 +414,22 @@ func (cmd *mainCmd) preview(
 	comments []string,
 ) error {
 	cmd.printComments(filename, comments)
-	return diff.Text(filename, filename, originalContent, modifiedContent, cmd.Stdout)
+	// diff.Text reads its input with a bufio.Scanner: it fails on lines
+	// longer than 64 KiB and drops the carriage return of CRLF line
+	// endings, so the diff it prints does not apply to such a file. Split
+	// the lines ourselves.
+	return diff.Slices(filename, filename, splitLines(originalContent), splitLines(modifiedContent), cmd.Stdout)
+}
+
+// splitLines splits text into lines without their terminating "\n". A final
+// line that is not terminated is kept as is; carriage returns are part of the
+// line.
+func splitLines(text []byte) []string {
+	lines := strings.Split(string(text), "\n")
+	if n := len(lines); n > 0 && lines[n-1] == "" {
+		lines = lines[:n-1]
+	}
+	return lines
 }
 
 func (cmd *mainCmd) printComments(filename string, comments []string) {
